@@ -75,6 +75,11 @@ def make_cases(tier, seed):
     cases = []  # dict(kind, fen, moves(list), deep)
     for fen in corpus:
         cases.append({"kind": "corpus", "fen": fen, "moves": [], "deep": True})
+    # key-collision pairs back to back, in both orders, on one engine thread: a memo keyed by the position key alone answers the second
+    # with the first one's data (seeded change r6C01)
+    for a, b in P.collision_pairs():
+        for fen in (a, b, a, b):
+            cases.append({"kind": "collision", "fen": fen, "moves": [], "deep": False})
     for fen in bench:
         cases.append({"kind": "bench", "fen": fen, "moves": [], "deep": False})
     for fam, fen in probes:
